@@ -37,3 +37,22 @@ Example C05_tree_reduce_differs :
   f_to_bits (par_reduce Leaf f_add (f_of_Z 0) tr_xs)
   <> f_to_bits (par_reduce (Split 1 Leaf Leaf) f_add (f_of_Z 0) tr_xs).
 Proof. exact tree_reduce_differs. Qed.
+
+(* one thread: every schedule gives the results of the purely sequential run (seq_pmap = map) *)
+Theorem C05_learn_equals_sequential :
+  forall (N : Num) (pick : forall A, list A -> sched) (n : network N) xs ts val batch epochs,
+    learn (sched_pmap pick) n xs ts val batch epochs = learn seq_pmap n xs ts val batch epochs.
+Proof. intros. apply learn_inv; [apply sched_pmap_ordered | intros A B f l; reflexivity]. Qed.
+Print Assumptions C05_learn_equals_sequential.
+
+Theorem C05_validate_equals_sequential :
+  forall (N : Num) (pick : forall A, list A -> sched) (n : network N) xs ts tol,
+    validate (sched_pmap pick) n xs ts tol = validate seq_pmap n xs ts tol.
+Proof. intros. apply validate_inv; [apply sched_pmap_ordered | intros A B f l; reflexivity]. Qed.
+Print Assumptions C05_validate_equals_sequential.
+
+Theorem C05_predict_batch_equals_sequential :
+  forall (N : Num) (pick : forall A, list A -> sched) (n : network N) xs,
+    predict_batch (sched_pmap pick) n xs = predict_batch seq_pmap n xs.
+Proof. intros. apply predict_batch_inv; [apply sched_pmap_ordered | intros A B f l; reflexivity]. Qed.
+Print Assumptions C05_predict_batch_equals_sequential.
